@@ -58,21 +58,46 @@ def net_shapes(s, net):
                Implies(cm.isnone, net.magnitudes.len == 0))
 
 
+def name_selected(old, i):
+    """constraint i of the network is among the requested names (the very membership term the code's filter evaluates)"""
+    from pyvc import lib
+    from pyvc.views import unwrap
+    net = old.self
+    return ty.to_bool(lib.contains(old._ex, old._st, unwrap(old.constraints), ty.sel(net.constraint_index.v.arrs[0], i), None))
+
+
+def selection(old):
+    """(number of selected constraints, result row -> network row): all constraints when none is named, otherwise the order-preserving
+    selection of the named ones (canonical selection functions of the membership condition, see pyvc.seqlib.filter_maps)"""
+    from pyvc.seqlib import filter_maps
+    net = old.self
+    M = net.constraint_index.len
+    none = z3.simplify(old.constraints.isnone)
+    if z3.is_true(none):
+        return M, (lambda r: r)
+    i = z3.Int(ty.fresh_name("sel"))
+    _, m, idx, _pos = filter_maps(i, M, name_selected(old, i))
+    if z3.is_false(none):
+        return m, idx
+    return z3.If(none, M, m), (lambda r: z3.If(none, r, idx(r)))
+
+
 def cc_value(old):
-    """constraint_current(S, constraints=None, time_indices, linear): one row per constraint in network order, one column per requested
-    period in the order given; entry (r, t) = the phasor sum of constraint r over column time_indices[t] of S (or column t)"""
+    """constraint_current(S, constraints, time_indices, linear): one row per requested constraint in NETWORK order (all of them when none is
+    named), one column per requested period in the order given; entry (r, t) = the phasor sum of that constraint over column
+    time_indices[t] of S (or column t)"""
     net, S = old.self, old.input_schedule
     A = net.constraint_matrix.val
     n = net._phase_angles.len
     r, t = z3.Int(ty.fresh_name("r")), z3.Int(ty.fresh_name("t"))
     cols = If(old.time_indices.isnone, S.cols, old.time_indices.val.len)
     col_of = lambda tt: z3.If(old.time_indices.isnone, tt, ty.sel(old.time_indices.val.v.arrs[0], tt))
+    rows, row_of = selection(old)
     parts = []
     for lin in (False, True):
-        parts.append(phasor_sum(A.arr, r, net._phase_angles.v.arrs[0], n, lambda j: ty.sel(S.arr, j, col_of(t)), linear=lin))
+        parts.append(phasor_sum(A.arr, row_of(r), net._phase_angles.v.arrs[0], n, lambda j: ty.sel(S.arr, j, col_of(t)), linear=lin))
     re = z3.If(old.linear, parts[1][0], parts[0][0])
     im = z3.If(old.linear, parts[1][1], parts[0][1])
-    rows = net.constraint_index.len
     return ty.CMatV(ty.MatV(z3.Lambda([r], z3.Lambda([t], re)), rows, cols), ty.MatV(z3.Lambda([r], z3.Lambda([t], im)), rows, cols))
 
 
@@ -80,10 +105,9 @@ REG.contract(
     N + "constraint_current",
     params=dict(self=Ref("ChargingNetwork"), input_schedule=Mat, constraints=Opt(Seq(Id)), time_indices=Opt(Seq(Int)), linear=Bool), ret=CMat, modifies=[],
     requires=[C("shapes", lambda s: And(net_shapes(s, s.self), Not(s.self.constraint_matrix.isnone), s.input_schedule.rows == s.self._phase_angles.len)),
-              C("all_constraints_requested", lambda s: s.constraints.isnone),
               C("time_indices_in_range", lambda s: Implies(Not(s.time_indices.isnone),
                   AllIdx(0, s.time_indices.val.len, lambda k: And(s.time_indices.val[k] >= 0, s.time_indices.val[k] < s.input_schedule.cols), name="tk")))],
-    extra=dict(returns=cc_value, returns_props=("C06", "C12", "C18")),
+    extra=dict(returns=cc_value, returns_props=("C06", "C12", "C18"), canonical_filters=True),
 )
 
 
